@@ -301,7 +301,7 @@ Theorem route1_flat fuel srcs expl k r :
   merge_simple srcs expl -> is_merge k = false ->
   tlook fuel k ((merge_key, merge_value srcs) :: expl) None = ROk r -> r = spec_lookup k srcs expl.
 Proof.
-  intros (Hn & Hp & _ & Hne & Hpe & _) Hk H.
+  intros (Hn & Hp & Hne & Hpe) Hk H.
   destruct fuel as [|f]; cbn [tlook] in H; [discriminate|].
   cbn [tlook_step] in H. unfold is_merge at 1 in H. rewrite str_eqb_refl, Hk in H. cbn [andb negb] in H.
   apply rbind_ok in H as (o1 & H1 & H).
@@ -418,7 +418,7 @@ Theorem spec_flat fuel a srcs expl k vs :
   resolve fuel (Mp a ((merge_key, merge_value srcs) :: expl)) = Some (VM vs) ->
   vlookup k vs = option_map value_of (spec_lookup k srcs expl).
 Proof.
-  intros (Hn & Hp & _ & Hne & Hpe & _) Hk H.
+  intros (Hn & Hp & Hne & Hpe) Hk H.
   destruct fuel as [|f]; cbn [resolve] in H; [discriminate|].
   assert (Hmk : is_merge merge_key = true) by reflexivity.
   cbn [resolve_step filter fst] in H. rewrite !Hmk in H. cbn [negb] in H.
@@ -528,16 +528,16 @@ Qed.
 Lemma in_skipn {A : Type} (x : A) n : forall l, In x (skipn n l) -> In x l.
 Proof. induction n as [|n IH]; intros [|a r] H; cbn [skipn] in H; try exact H. right. apply IH, H. Qed.
 
-Lemma in_flat_texts k es : In (Some k) (flat_texts es) -> In k (keys es) \/ In (Some k) (value_texts es).
+Lemma in_flat_texts k es : In (Some k) (flat_texts es) -> In k (keys es).
 Proof.
-  induction es as [|[k' v] r IH]; cbn [flat_texts flat_map app keys value_texts map fst snd]; [intros []|].
+  induction es as [|[k' v] r IH]; cbn [flat_texts flat_map app keys map fst snd]; [intros []|].
   intros [H|[H|H]].
-  - injection H as ->. left. left. reflexivity.
-  - right. left. exact H.
-  - destruct (IH H) as [H'|H']; [left; right; exact H' | right; right; exact H'].
+  - injection H as ->. left. reflexivity.
+  - discriminate.
+  - right. exact (IH H).
 Qed.
 
-Lemma later_has_sound es n k : later_has (flat_texts es) n k = true -> In k (keys es) \/ In (Some k) (value_texts es).
+Lemma later_has_sound es n k : later_has (flat_texts es) n k = true -> In k (keys es).
 Proof.
   unfold later_has. intros H. apply existsb_exists in H as (o & Hin & Ho).
   destruct o as [s|]; [|discriminate]. apply str_eqb_eq in Ho. subst s.
@@ -742,17 +742,14 @@ Lemma is_merge_false_neq k : is_merge k = false -> k <> merge_key.
 Proof. intros H E. subst. discriminate. Qed.
 
 Lemma merged_key_never_skipped srcs expl k :
-  merge_simple srcs expl -> is_merge k = false -> lookup_entry k expl = None -> In k (flat_map keys srcs) ->
+  is_merge k = false -> lookup_entry k expl = None ->
   forall n, later_has (flat_texts ((merge_key, merge_value srcs) :: expl)) n k = false.
 Proof.
-  intros (Hn & Hp & Hne0 & Hne & Hpe & Hvt) Hk Hnone Hin n.
+  intros Hk Hnone n.
   destruct (later_has _ n k) eqn:E; [|reflexivity]. exfalso.
-  apply later_has_sound in E as [E|E].
-  - cbn [keys map fst] in E. destruct E as [E|E]; [symmetry in E; exact (is_merge_false_neq _ Hk E)|].
-    apply lookup_entry_some_of_in in E as (v & Ev). congruence.
-  - cbn [value_texts map snd] in E. destruct E as [E|E]; [|exact (Hvt k Hin E)].
-    unfold merge_value in E. destruct srcs as [|s [|s2 r]]; cbn [node_text] in E; try discriminate;
-      injection E as <-; exact (Hne0 Hin).
+  apply later_has_sound in E. cbn [keys map fst] in E.
+  destruct E as [E|E]; [symmetry in E; exact (is_merge_false_neq _ Hk E)|].
+  apply lookup_entry_some_of_in in E as (v & Ev). congruence.
 Qed.
 
 Theorem route23_flat fuel a srcs expl k d' :
@@ -760,7 +757,7 @@ Theorem route23_flat fuel a srcs expl k d' :
   explode fuel (Mp a ((merge_key, merge_value srcs) :: expl)) = ROk d' ->
   exists es', d' = Mp false es' /\ lookup_entry k es' = option_map strip_anchors (spec_lookup k srcs expl).
 Proof.
-  intros HMS Hk H. pose proof HMS as (Hn & Hp & Hne0 & Hne & Hpe & Hvt).
+  intros HMS Hk H. pose proof HMS as (Hn & Hp & Hne & Hpe).
   destruct fuel as [|f]; cbn [explode] in H; [discriminate|].
   set (es := (merge_key, merge_value srcs) :: expl) in *.
   assert (Hrec : forall t t', plain t = true -> explode f t = ROk t' -> t' = strip_anchors t) by (intros; eapply explode_plain; eassumption).
